@@ -13,7 +13,7 @@ import (
 func (e *Engine) newUnit(fn *ssa.Function) *Unit {
 	return &Unit{eng: e, sorts: newSorts(), fn: fn, heapSort: map[string]string{}, initHeap: map[string]string{},
 		obNames: map[string]int{}, abstracted: map[string]int{}, externsUsed: map[string]bool{}, defaultExt: map[string]bool{},
-		dynCalls: map[string]bool{}, values: map[string]string{}, contractsUsed: map[string]bool{}, assertsSeen: map[string]bool{}}
+		dynCalls: map[string]bool{}, values: map[string]string{}, contractsUsed: map[string]bool{}, assertsSeen: map[string]bool{}, nonNil: map[string]bool{}}
 }
 
 var safetyKinds = map[string]bool{"nil": true, "idx": true, "slice": true, "typeassert": true, "panic": true, "div0": true, "mapwrite": true}
@@ -47,6 +47,7 @@ func (e *Engine) verifyFunc(fn *ssa.Function) (u *Unit) {
 			if _, ok := p.Type().Underlying().(*types.Pointer); ok {
 				// implicit precondition of every method: non-nil pointer receiver
 				u.assume("true", fmt.Sprintf("(not (= %s 0))", n))
+				u.nonNil[n] = true
 			}
 		}
 	}
@@ -61,6 +62,7 @@ func (e *Engine) verifyFunc(fn *ssa.Function) (u *Unit) {
 		g := u.heapGet(st, "G:"+fn.Pkg.Pkg.Path()+".init$guard", "Bool")
 		u.assume("true", not(g))
 	}
+	u.emitAxioms(fr, st)
 	pre := st.clone()
 	if ct != nil {
 		for _, r := range ct.Requires {
@@ -78,15 +80,23 @@ func (e *Engine) verifyFunc(fn *ssa.Function) (u *Unit) {
 	}
 	if ct != nil {
 		for _, c := range ct.Ensures {
-			if c.Canary {
+			if c.Canary || c.Records || ct.Trusted {
 				continue
 			}
 			if c.Fn == nil {
 				e.stale = append(e.stale, "clause without function: "+c.Label)
 				continue
 			}
-			t := fr.evalSpec(c, append(append([]*Val{}, params...), res...), exitSt, pre)
-			u.oblige(fr.obName("ensures", c.Label), "ensures", c.Tags, exitReach, t, fr.pos(fn.Pos()), c.Text)
+			if len(fr.rets) <= 1 || c.Merged {
+				t := fr.evalSpec(c, append(append([]*Val{}, params...), res...), exitSt, pre)
+				u.oblige(fr.obName("ensures", c.Label), "ensures", c.Tags, exitReach, t, fr.pos(fn.Pos()), c.Text)
+				continue
+			}
+			// one query per return site: each has a concrete path, which the solvers handle far better
+			for ri, r := range fr.retsByPos() {
+				t := fr.evalSpec(c, append(append([]*Val{}, params...), r.vals...), r.st, pre)
+				u.oblige(fr.obName("ensures", fmt.Sprintf("%s@ret%d", c.Label, ri+1)), "ensures", c.Tags, r.reach, t, r.pos, c.Text)
+			}
 		}
 	}
 	if ct != nil {
@@ -114,9 +124,10 @@ func (u *Unit) addValue(name, term string) {
 func calleeLabel(fr *frame, c *ssa.CallCommon) []string {
 	var names []string
 	if !c.IsInvoke() && c.StaticCallee() == nil {
-		if _, isB := c.Value.(*ssa.Builtin); !isB {
-			return []string{funcValueKey(fr, c.Value)}
+		if b, isB := c.Value.(*ssa.Builtin); isB {
+			return []string{b.Name()}
 		}
+		return []string{funcValueKey(fr, c.Value)}
 	}
 	if c.IsInvoke() {
 		names = append(names, c.Method.Name(), c.Method.FullName())
@@ -193,6 +204,11 @@ func (fr *frame) callSiteAsserts(call ssa.CallInstruction, args []*Val, st *Stat
 		t := fr.evalSpec(cl, sargs, st, nil)
 		fr.u.oblige(fr.obName("assert", cl.Label), "assert", cl.Tags, reach, t, fr.pos(call.Pos()), cl.Text)
 		fr.u.assertsSeen[cl.Label] = true
+		if cl.DeriveFn != nil {
+			// the premise has just been obliged; the derived ghost fact holds from here on
+			dc := &Clause{Fn: cl.DeriveFn, FnName: cl.DeriveFnName, Label: cl.Label}
+			fr.u.assume(reach, fr.evalSpec(dc, sargs, st, nil))
+		}
 	}
 }
 
@@ -245,4 +261,43 @@ func (fr *frame) localNamed(name string, at ssa.Instruction, st *State) *Val {
 		return &Val{t: fr.u.read(st, lv)}
 	}
 	return v
+}
+
+
+func (fr *frame) retsByPos() []retInfo {
+	rs := append([]retInfo{}, fr.rets...)
+	sort.SliceStable(rs, func(i, j int) bool { return rs[i].tpos < rs[j].tpos })
+	return rs
+}
+
+
+// emitAxioms asserts the universally quantified rules that define derived ghost predicates.
+func (u *Unit) emitAxioms(fr *frame, st *State) {
+	for _, ax := range u.eng.axiomDefs {
+		var args []*Val
+		var binders []string
+		for _, p := range ax.Fn.Params {
+			n := u.fresh("ax." + p.Name())
+			binders = append(binders, fmt.Sprintf("(%s %s)", n, u.sorts.sortOf(p.Type())))
+			args = append(args, &Val{t: n})
+		}
+		nf := u.newFrame(ax.Fn, 1, true, "")
+		nf.binders = 1
+		var lets [][2]string
+		nf.lets = &lets
+		res, _, _ := nf.run(args, nil, st, "true")
+		if len(res) == 0 {
+			continue
+		}
+		body := res[0].t
+		for i := len(lets) - 1; i >= 0; i-- {
+			body = fmt.Sprintf("(let ((%s %s)) %s)", lets[i][0], lets[i][1], body)
+		}
+		if len(binders) == 0 {
+			u.assume("true", body)
+		} else {
+			u.assume("true", fmt.Sprintf("(forall (%s) %s)", strings.Join(binders, " "), body))
+		}
+		u.axiomsUsed = append(u.axiomsUsed, ax.Name)
+	}
 }
